@@ -63,6 +63,33 @@ Qed.
 
 (* ---- updateInnerRing, all lists ------------------------------------------- *)
 
+Lemma NoDup_app_intro (l1 l2 : list nat) :
+  NoDup l1 -> NoDup l2 -> (forall z, In z l1 -> ~ In z l2) -> NoDup (l1 ++ l2).
+Proof.
+  induction l1 as [|a r IH]; intros H1 H2 Hd; simpl; [exact H2|].
+  inversion H1 as [|? ? Ha Hr]; subst. constructor.
+  - intros Hin. apply in_app_or in Hin. destruct Hin as [Hin|Hin]; [contradiction|].
+    apply (Hd a); [left; reflexivity|exact Hin].
+  - apply IH; [exact Hr|exact H2|]. intros z Hz. apply Hd. right. exact Hz.
+Qed.
+
+Lemma NoDup_flat_map_disj (g : nat -> list nat) l :
+  NoDup l -> (forall x, In x l -> NoDup (g x)) ->
+  (forall x y z, In x l -> In y l -> In z (g x) -> In z (g y) -> x = y) ->
+  NoDup (flat_map g l).
+Proof.
+  induction l as [|a r IH]; intros Hnd Hg Hdis; simpl; [constructor|].
+  inversion Hnd as [|? ? Ha Hr]; subst.
+  apply NoDup_app_intro.
+  - apply Hg. left. reflexivity.
+  - apply IH; [exact Hr| |].
+    + intros x Hx. apply Hg. right. exact Hx.
+    + intros x y z Hx Hy. apply Hdis; right; assumption.
+  - intros z Hz Hin. apply in_flat_map in Hin. destruct Hin as (y & Hy & Hzy).
+    assert (a = y) by (apply (Hdis a y z); [left; reflexivity|right; exact Hy|exact Hz|exact Hzy]).
+    subst. contradiction.
+Qed.
+
 Section UpdateInnerRing.
   Variables ir before after : list nat.
   Hypothesis Hlen : length before = length after.
@@ -71,6 +98,7 @@ Section UpdateInnerRing.
   Hypothesis Hni : NoDup ir.
 
   Let f := replace_key before after.
+  Let g := step_key before after.
 
   Lemma f_in_before x : In x before -> exists j, nth_error before j = Some x /\ nth_error after j = Some (f x).
   Proof.
@@ -84,54 +112,90 @@ Section UpdateInnerRing.
   Lemma f_not_before x : ~ In x before -> f x = x.
   Proof. intros H. unfold f, replace_key. apply index_of_None in H. rewrite H. reflexivity. Qed.
 
-  (* premise of the partial theorem: no inner-ring key outside `before` is one of the `after` keys *)
-  Hypothesis Hdisj : forall x, In x ir -> ~ In x before -> ~ In x after.
+  Lemma f_in_after x : In x before -> In (f x) after.
+  Proof. intros Bx. destruct (f_in_before x Bx) as (j & _ & Hj). eapply nth_error_In. exact Hj. Qed.
 
-  Lemma f_inj_on_ir x y : In x ir -> In y ir -> f x = f y -> x = y.
+  Lemma f_inj_before x y : In x before -> In y before -> f x = f y -> x = y.
   Proof.
-    intros Hx Hy E.
-    destruct (in_dec Nat.eq_dec x before) as [Bx|Bx]; destruct (in_dec Nat.eq_dec y before) as [By|By].
-    - destruct (f_in_before x Bx) as (j & Hj1 & Hj2). destruct (f_in_before y By) as (k & Hk1 & Hk2).
-      rewrite E in Hj2.
-      assert (j = k).
-      { apply (proj1 (NoDup_nth_error after) Hna); [apply nth_error_Some; congruence|congruence]. }
-      subst. congruence.
-    - destruct (f_in_before x Bx) as (j & _ & Hj2). rewrite (f_not_before y By) in E.
-      exfalso. apply (Hdisj y Hy By). rewrite <- E. eapply nth_error_In. exact Hj2.
-    - destruct (f_in_before y By) as (j & _ & Hj2). rewrite (f_not_before x Bx) in E.
-      exfalso. apply (Hdisj x Hx Bx). rewrite E. eapply nth_error_In. exact Hj2.
-    - rewrite (f_not_before x Bx), (f_not_before y By) in E. exact E.
+    intros Bx By E.
+    destruct (f_in_before x Bx) as (j & Hj1 & Hj2). destruct (f_in_before y By) as (k & Hk1 & Hk2).
+    rewrite E in Hj2.
+    assert (j = k).
+    { apply (proj1 (NoDup_nth_error after) Hna); [apply nth_error_Some; congruence|congruence]. }
+    subst. congruence.
   Qed.
 
-  Lemma uir_nodup : NoDup (map f ir).
-  Proof. apply NoDup_map_inj_on; [exact f_inj_on_ir|exact Hni]. Qed.
+  (* the keys appended for x *)
+  Lemma g_before x : In x before -> g x = [f x].
+  Proof.
+    intros Bx. unfold g, step_key, f, replace_key. destruct (index_of x before) eqn:E; [reflexivity|].
+    apply index_of_None in E. contradiction.
+  Qed.
+
+  Lemma g_not_before x : ~ In x before -> g x = if mem x after then [] else [x].
+  Proof. intros H. unfold g, step_key. apply index_of_None in H. rewrite H. reflexivity. Qed.
+
+  Lemma g_spec x z : In z (g x) <-> (In x before /\ z = f x) \/ (~ In x before /\ ~ In x after /\ z = x).
+  Proof.
+    destruct (in_dec Nat.eq_dec x before) as [Bx|Bx].
+    - rewrite (g_before x Bx). simpl. split.
+      + intros [H|[]]. left. split; [exact Bx|congruence].
+      + intros [[_ H]|[H _]]; [left; congruence|contradiction].
+    - rewrite (g_not_before x Bx). destruct (mem x after) eqn:E.
+      + apply mem_In in E. simpl. split; [tauto|]. intros [[H _]|[_ [H _]]]; contradiction.
+      + assert (~ In x after) as Ha by (intros H; apply mem_In in H; congruence).
+        simpl. split.
+        * intros [H|[]]. right. repeat split; [exact Bx|exact Ha|congruence].
+        * intros [[H _]|[_ [_ H]]]; [contradiction|left; congruence].
+  Qed.
+
+  Lemma g_nodup x : NoDup (g x).
+  Proof.
+    unfold g, step_key. destruct (index_of x before).
+    - constructor; [intros []|constructor].
+    - destruct (mem x after); [constructor|constructor; [intros []|constructor]].
+  Qed.
+
+  (* no premise about extra inner-ring keys any more *)
+  Lemma uir_nodup : NoDup (flat_map g ir).
+  Proof.
+    apply NoDup_flat_map_disj; [exact Hni|intros; apply g_nodup|].
+    intros x y z _ _ Hx Hy. apply g_spec in Hx. apply g_spec in Hy.
+    destruct Hx as [[Bx Ex]|[Bx [Ax Ex]]]; destruct Hy as [[By Ey]|[By [Ay Ey]]].
+    - apply f_inj_before; [exact Bx|exact By|congruence].
+    - exfalso. apply Ay. rewrite <- Ey, Ex. apply f_in_after. exact Bx.
+    - exfalso. apply Ax. rewrite <- Ex, Ey. apply f_in_after. exact By.
+    - congruence.
+  Qed.
 
   Hypothesis Hincl : incl before ir.
 
-  Lemma uir_members z : In z (map f ir) <-> (In z ir /\ ~ In z before) \/ In z after.
+  Lemma uir_members z : In z (flat_map g ir) <-> (In z ir /\ ~ In z before /\ ~ In z after) \/ In z after.
   Proof.
-    rewrite in_map_iff. split.
-    - intros (x & Hfx & Hx). destruct (in_dec Nat.eq_dec x before) as [Bx|Bx].
-      + right. destruct (f_in_before x Bx) as (j & _ & Hj2). rewrite Hfx in Hj2. eapply nth_error_In. exact Hj2.
-      + left. rewrite (f_not_before x Bx) in Hfx. subst. tauto.
-    - intros [[Hz Hb]|Hz].
-      + exists z. split; [apply f_not_before; exact Hb|exact Hz].
+    rewrite in_flat_map. split.
+    - intros (x & Hx & Hzx). apply g_spec in Hzx. destruct Hzx as [[Bx E]|[Bx [Ax E]]]; subst.
+      + right. apply f_in_after. exact Bx.
+      + left. tauto.
+    - intros [(Hz & Hb & Ha)|Hz].
+      + exists z. split; [exact Hz|]. apply g_spec. right. tauto.
       + apply In_nth_error in Hz. destruct Hz as (j & Hj).
         assert (j < length before) as Hl by (rewrite Hlen; apply nth_error_Some; congruence).
         destruct (nth_error before j) as [y|] eqn:Ey; [|apply nth_error_None in Ey; lia].
-        exists y. split; [|apply Hincl; eapply nth_error_In; exact Ey].
+        assert (In y before) as By by (eapply nth_error_In; exact Ey).
+        exists y. split; [apply Hincl; exact By|].
+        apply g_spec. left. split; [exact By|].
         unfold f, replace_key. rewrite (index_of_nth before j y Hnb Ey).
-        apply nth_error_nth with (d := y) in Hj. exact Hj.
+        apply nth_error_nth with (d := y) in Hj. symmetry. exact Hj.
   Qed.
 End UpdateInnerRing.
 
-Theorem update_inner_ring_partial ir before after :
+(* FULL statement for the repaired updateInnerRing *)
+Theorem update_inner_ring_full ir before after :
   length before = length after -> NoDup before -> NoDup after -> NoDup ir -> incl before ir ->
-  (forall x, In x ir -> ~ In x before -> ~ In x after) ->
   exists l, update_inner_ring ir before after = Some l /\ NoDup l /\
             forall z, In z l <-> (In z ir /\ ~ (In z before /\ ~ In z after)) \/ (In z after /\ ~ In z before).
 Proof.
-  intros Hlen Hnb Hna Hni Hincl Hdisj. unfold update_inner_ring.
+  intros Hlen Hnb Hna Hni Hincl. unfold update_inner_ring.
   rewrite (proj2 (Nat.eqb_eq _ _) Hlen). eexists. split; [reflexivity|]. split.
   - apply uir_nodup; assumption.
   - intros z. rewrite (uir_members ir before after Hlen Hnb Hincl z).
@@ -140,12 +204,12 @@ Proof.
     exfalso. apply I. apply Hincl. exact B.
 Qed.
 
-(* the statement without the disjointness premise does not hold: an extra inner-ring key
-   that is voted into the alphabet appears twice (confirmed on the Go code) *)
-Theorem update_inner_ring_refuted :
+(* the code before the repair (update_inner_ring_old) violated the statement: an extra inner-ring
+   key that is voted into the alphabet appeared twice (was confirmed on the Go code) *)
+Theorem update_inner_ring_old_refuted :
   exists fs mn ir a l,
     NoDup fs /\ NoDup mn /\ NoDup ir /\ incl fs ir /\
-    pipeline fs mn ir = (Proposed a, Some l) /\ ~ NoDup l.
+    pipeline_old fs mn ir = (Proposed a, Some l) /\ ~ NoDup l.
 Proof.
   exists [1;2;3;4], [0;1;2;3], [1;2;3;4;0], [0;1;2;3], [0;0;1;2;3].
   repeat split; try (apply nodupb_spec; reflexivity).
